@@ -28,6 +28,10 @@ static inline void xv_xcmcore_havoc(void)
     xv_get_calls = nondet_long(); xv_get_name = nondet_voidp(); xv_get_value = nondet_voidp(); xv_get_cap = nondet_size_t();
     xv_get_sock = nondet_sockp(); xv_get_rv = nondet_int(); xv_get_errno = nondet_int(); xv_get_type = nondet_int();
     xv_created_sock = nondet_sockp(); xv_inited_sock = nondet_sockp(); xv_connected_sock = nondet_sockp(); xv_accepted_sock = nondet_sockp();
+    xv_at_name = nondet_voidp(); xv_at_type = nondet_int(); xv_at_value = nondet_voidp(); xv_at_len = nondet_size_t(); xv_at_sock = nondet_sockp();
+    xv_map_n = nondet_long(); xv_map_name = nondet_voidp(); xv_map_type = nondet_int(); xv_map_value = nondet_voidp(); xv_map_len = nondet_size_t();
+    xv_map_has_service = nondet_bool();
+    xv_attrs_sock = nondet_sockp(); xv_attrs_rv = nondet_int();
     version_logged = nondet_bool();
 }
 #endif
